@@ -16,6 +16,11 @@ from . import common as C
 from . import C12
 
 
+def absint_read(callee):
+    nm = (callee or "").rsplit("::", 1)[-1]
+    return nm.startswith("read_") or nm == "read_exact"
+
+
 def run(prog, ctx):
     res = Result("C13")
     total = 0
@@ -146,6 +151,73 @@ def run(prog, ctx):
             else:
                 res.undecided += 1
     res.rule("C13.E", n_e, 4, "theta reader arms constructing a sketch (emptiness consistent with entries and theta)")
+    # C13.O  a reader fills a local buffer from the image in a loop; anything it *derives* from the buffer's content (a recount of
+    #        set bits for Java's "dirty" Bloom images, a checksum, a minimum) must be computed after the loop, not before it
+    n_o = 0
+    readers = []
+    for fam in sorted(specfmt.FAMILIES):
+        rf_ = C.pub_fn(prog, *specfmt.FAMILIES[fam]["reader"])
+        if rf_ is not None:
+            readers.append(rf_)
+    for f in [g for g in C.reach_from(prog, readers) if not g.id.startswith(("core::", "std::", "alloc::")) and "deserialize" in g.item_name]:
+        sf = sym.Sym(prog, f, ifconv=False)
+        loops = sf.loops()
+        if not loops:
+            continue
+        # locals that own a slice-like buffer
+        bufs = [l for l in range(len(f.locals)) if f.local_name(l) and f.local_ty(l).startswith(("std::boxed::Box<[", "std::vec::Vec<", "alloc::boxed::Box<[", "alloc::vec::Vec<"))]
+        for L in bufs:
+            alias = {L}
+            changed = True
+            while changed:
+                changed = False
+                for b in f.blocks:
+                    for st in b.stmts:
+                        if st[0] == "=" and isinstance(st[1], int) and st[1] not in alias and st[2][0] in ("use", "cast", "ref"):
+                            op = st[2][1] if st[2][0] == "use" else st[2][2]
+                            pl = op[1] if st[2][0] != "ref" and isinstance(op, list) and op and op[0] in ("c", "m") else (st[2][2] if st[2][0] == "ref" else None)
+                            if pl is None:
+                                continue
+                            base = pl if isinstance(pl, int) else pl[0]
+                            if base in alias and f.local_name(st[1]) is None:
+                                alias.add(st[1])
+                                changed = True
+            fill_loops = []
+            for hdr, body in loops:
+                has_read = any(f.blocks[b].term[0] == "call" and absint_read(f.blocks[b].term[1].get("callee")) for b in body)
+                has_mut = any(st[0] == "=" and ((st[2][0] == "ref" and st[2][1] == "mut" and (st[2][2] if isinstance(st[2][2], int) else st[2][2][0]) in alias) or
+                                               (not isinstance(st[1], int) and st[1][0] in alias and any(p[0] in ("[]", "*") for p in st[1][1])))
+                              for b in body for st in f.blocks[b].stmts)
+                # `for w in &mut buf` takes the mutable borrow before the loop: stores through the iterator item inside the body
+                stores_item = any(st[0] == "=" and not isinstance(st[1], int) and len(st[1][1]) == 1 and st[1][1][0][0] == "*" for b in body for st in f.blocks[b].stmts)
+                pre_mut = any(st[0] == "=" and st[2][0] == "ref" and st[2][1] == "mut" and (st[2][2] if isinstance(st[2][2], int) else st[2][2][0]) in alias
+                              for b in f.blocks if f.dominates(b.idx, hdr) and b.idx not in body for st in b.stmts)
+                if has_read and (has_mut or (stores_item and pre_mut)):
+                    fill_loops.append((hdr, body))
+            if not fill_loops:
+                continue
+            n_o += 1
+            res.obligations += 1
+            early = None
+            for b, site in f.calls():
+                nm = (site.get("callee") or "").rsplit("::", 1)[-1]
+                if nm in ("len", "capacity", "is_empty", "iter_mut", "as_mut_ptr", "deref_mut", "index_mut", "into_iter", "into_boxed_slice", "reserve", "with_capacity", "remaining") or any(b in body for _, body in fill_loops):
+                    continue
+                uses = False
+                for a in site["args"]:
+                    if a[0] in ("c", "m"):
+                        pl = a[1]
+                        base = pl if isinstance(pl, int) else pl[0]
+                        if base in alias:
+                            uses = True
+                if uses and any(sf._reaches(b, hdr) for hdr, _ in fill_loops):
+                    early = (b, site.get("callee"), site.get("span"))
+            if early:
+                res.violate("C13.O", "C13.O|%s|%s" % (f.id, f.local_name(L)), "%s reads the content of `%s` (%s) before the loop that fills it from the image: whatever it derives describes the empty buffer" % (
+                    f.id, f.local_name(L), early[1]), f.id, early[2])
+            else:
+                res.discharged += 1
+    res.rule("C13.O", n_o, 2, "buffers filled from the image in reader loops")
     if "undecided_reasons" in res.extra:
         res.extra["undecided_reasons"] = sorted(res.extra["undecided_reasons"])[:12]
     res.rule("C13.L", total, 80, "image variants x families run through the reader models")
